@@ -474,16 +474,22 @@ def periodics(factories):
     return
 
 
-def purge(node: dawgie.pl.dag.Node, target: str):
-    if target in node.get('do', []):
+def purge(node: dawgie.pl.dag.Node, target: str, executing: bool = True):
+    '''withdraw target from node and all of its dependents
+
+    executing - when False only pending work (todo) is withdrawn; work that is
+                already released (do, doing) is kept so that its reply can
+                still be found and applied when it arrives
+    '''
+    if executing and target in node.get('do', []):
         node.get('do').remove(target)
-    if target in node.get('doing', []):
+    if executing and target in node.get('doing', []):
         node.get('doing').remove(target)
     if target in node.get('todo', []):
         node.get('todo').remove(target)
 
     for child in node:
-        purge(child, target)
+        purge(child, target, executing)
     return
 
 
